@@ -4,10 +4,12 @@ import sys
 
 PROPERTY_MODULES = {
     "C01": ["contracts.c01"],
+    "C02": ["contracts.c01", "contracts.c02"],
     "C10": ["contracts.c10"],
     "C19": ["contracts.c19"],
     "C16": ["contracts.c16"],
     "C03": ["contracts.c03"],
+    "C04": ["contracts.c04"],
 }
 
 
